@@ -609,6 +609,20 @@ def resolve_strategy_inline_recurse(path, base, decisions):
                 # TODO: Do inline merge
                 pass
 
+            elif k == 'attachments':
+                # Keep the attachments of both cells, renaming the ones that
+                # differ as is done for conflicting attachments of a cell
+                lattach = lcell.get(k, {})
+                rattach = rcell.get(k, {})
+                attachments = {}
+                for name in sorted(set(lattach) | set(rattach)):
+                    if name in lattach and name in rattach and lattach[name] != rattach[name]:
+                        attachments["LOCAL_" + name] = lattach[name]
+                        attachments["REMOTE_" + name] = rattach[name]
+                    else:
+                        attachments[name] = lattach[name] if name in lattach else rattach[name]
+                cell[k] = attachments
+
             else:
                 raise ValueError('Conflict on unrecognized key: %r' % (k,))
 
